@@ -39,7 +39,23 @@ def check(ctx, case):
 		hay, pat, start, stop = bytes.fromhex(case['bfind'][0]), bytes.fromhex(case['bfind'][1]), case['bfind'][2], case['bfind'][3]
 		r = hay.find(pat, start, stop)
 		return [f'c01.bfind {hx(hay)} {hx(pat)} {start} {stop} {"~" if r < 0 else r}'], []
-	kspec = KmerSpec(k, pre)
+	# KmerSpec accepts the prefix in any case (and as str / bytes) and normalises it; the specification is in terms of the upper-case prefix
+	pform = case.get('pform', 'bytes-upper')
+	parg = pre
+	if 'lower' in pform:
+		parg = pre.lower()
+	elif 'mixed' in pform:
+		parg = bytes((b | 0x20) if i % 2 else b for i, b in enumerate(pre))
+	if pform.startswith('str'):
+		parg = parg.decode('ascii')
+	kspec = KmerSpec(k, parg)
+	if case.get('after_failure'):
+		# an earlier call in this thread that fails part-way (after some k-mers were found) must leave nothing behind
+		bad = [bytes.fromhex(case['seqs'][0]) if case['seqs'] else b'ATATATAT', pre + b'ACGT' * 12, 'not ascii: \u00e9\u00e9' if case['after_failure'] == 'unicode' else 12345]
+		try:
+			calc_signature(KmerSpec(k, pre), bad, accumulator=None)
+		except Exception:
+			pass
 	accumulator = None
 	if acc == 'array':
 		accumulator = ArrayAccumulator(k)
@@ -148,8 +164,12 @@ def run(ctx):
 					s = bytearray(unit)
 			seqs.append(bytes(s))
 		acc = rng.choice(['set', 'array', 'default']) if k <= amax else rng.choice(['set', 'default'])
-		sub({'k': k, 'pre': pre.hex(), 'seqs': [s.hex() for s in seqs], 'form': rng.choice(forms), 'acc': acc,
-		     'find': rng.random() < 0.3}, 'random')
+		case = {'k': k, 'pre': pre.hex(), 'seqs': [s.hex() for s in seqs], 'form': rng.choice(forms), 'acc': acc,
+		        'find': rng.random() < 0.3, 'pform': rng.choice(['bytes-upper', 'bytes-upper', 'str-upper', 'bytes-lower', 'str-lower', 'bytes-mixed', 'str-mixed'])}
+		if rng.random() < 0.15:
+			case['after_failure'] = rng.choice(['unicode', 'type'])
+			case['acc'] = 'default'
+		sub(case, 'random')
 	# bytes.find sub-stream (validates the model of the library call)
 	for j in range(ctx.q(2000, 20000)):
 		n = rng.randint(0, 12)
